@@ -8,6 +8,7 @@ from typing import Dict, List, Set
 from ..astutil import calls_in, const_str, dotted, lexical_guards, name_stores, own_exprs, raises_of, unparse, walk_local, walk_stmts
 from ..report import Registry, chain, sub
 from ._helpers_rules_d import call_nodes, callee_is, const_is, guard_atom_set, qualname
+from ._helpers_rob_g2 import normal_form
 
 R = Registry(
     "C47",
@@ -37,6 +38,18 @@ STRAT = "orm/strategies.py"
 QUERY = "orm/query.py"
 
 
+# calls the rules recognise by name: never inlined by the normal form
+VOCAB = ("_autoflush", "flush", "from_execution_options", "orm_pre_session_exec", "_connection_for_bind", "connection",
+         "_get_plugin_class_for_plugin", "orm_execute_statement", "execute", "scalar", "get_bind", "_merge", "_load_on_ident",
+         "_load_on_pk_identity", "_emit_lazyload", "add_detail", "_flush_warning")
+
+
+def _nf(ctx, f, inline=True):
+    """normal form: extracted helpers inlined (except the rules' vocabulary), call-free single-assignment locals
+    (`do_flush = not is_pre_event and load_options._autoflush`) resolved"""
+    return normal_form(ctx, f, keep=VOCAB, alias="all", inline=inline, foreign=False)
+
+
 def _is_abstract(f) -> bool:
     body = [s for s in f.node.body if not (isinstance(s, ast.Expr) and isinstance(s.value, ast.Constant))]
     return len(body) == 1 and isinstance(body[0], ast.Raise) and "NotImplementedError" in unparse(body[0])
@@ -63,6 +76,7 @@ def r1(ctx):
     impls = _pre_exec_impls(ctx)
     ctx.require(len(impls) >= 4, f"only {len(impls)} concrete orm_pre_session_exec implementations found")
     for f in impls:
+        f = _nf(ctx, f)
         g = ctx.cfg(f)
         # the options object produced by from_execution_options(...)
         opts: Set[str] = set()
@@ -90,7 +104,7 @@ def r1(ctx):
                   f"session._autoflush() is not called exactly under `not {pre} and <options>._autoflush` (guards found: {seen})",
                   f"guarded by not {pre} and options._autoflush only", f.loc)
     # --- Session._execute_internal
-    f = ctx.func(f"{SESSION}::Session._execute_internal")
+    f = _nf(ctx, ctx.func(f"{SESSION}::Session._execute_internal"))
     g = ctx.cfg(f)
     core = call_nodes(g, lambda c: callee_is(c, "self._autoflush"))
     real = call_nodes(g, lambda c: callee_is(c, "orm_pre_session_exec") and c.args and const_is(c.args[-1], False))
@@ -190,7 +204,7 @@ def r1(ctx):
               + (f": {core_bad[0]}() is reachable without self._autoflush()" if core_bad else ""),
               "without the ORM plugin every path to an execution passes self._autoflush()", f.loc, core_bad[1] if core_bad else None)
     # --- refresh
-    f = ctx.func(f"{SESSION}::Session.refresh")
+    f = _nf(ctx, ctx.func(f"{SESSION}::Session.refresh"))
     g = ctx.cfg(f)
     af = call_nodes(g, lambda c: callee_is(c, "self._autoflush"))
     ld = call_nodes(g, lambda c: callee_is(c, "_load_on_ident"))
@@ -200,7 +214,7 @@ def r1(ctx):
     # --- merge family
     for key, target in ((f"{SESSION}::Session.merge", "_merge"), (f"{SESSION}::Session.merge_all", "_merge"),
                         (f"{LOADING}::merge_frozen_result", None), (f"{LOADING}::merge_result", None)):
-        f = ctx.func(key)
+        f = _nf(ctx, ctx.func(key))
         g = ctx.cfg(f)
         af = call_nodes(g, lambda c: callee_is(c, "_autoflush"))
         good = bool(af) and all(guard_atom_set(g, n) == {("load", True)} for n in af)
@@ -218,7 +232,7 @@ def r1(ctx):
 @R.rule("C47-R2", floor=2, template="T-GUARD",
         desc="Session._autoflush flushes iff `self.autoflush and not self._flushing` and re-raises statement errors with the autoflush note")
 def r2(ctx):
-    f = ctx.func(f"{SESSION}::Session._autoflush")
+    f = _nf(ctx, ctx.func(f"{SESSION}::Session._autoflush"))
     g = ctx.cfg(f)
     fl = call_nodes(g, lambda c: callee_is(c, "self.flush"))
     ctx.require(fl, "_autoflush never flushes")
@@ -782,3 +796,45 @@ R.mutant("refresh-autoflush-only-for-attribute-names", SESSION,
 R.mutant("fix-expired-attribute-load-autoflushes-up-front", LOADING,
          sub("    no_autoflush = bool(passive & attributes.NO_AUTOFLUSH)\n", "    no_autoflush = bool(passive & attributes.NO_AUTOFLUSH)\n    if not no_autoflush:\n        session._autoflush()\n        no_autoflush = True\n"),
          None)
+
+# ---- rob-G2: benign refactoring families (stored diffs rfG_7..9 and neighbours) with their breaking twins
+_PRE_GUARD = "        if not is_pre_event and load_options._autoflush:\n            session._autoflush()\n\n        return statement, execution_options, params\n"
+R.mutant("benign-pre-exec-guard-through-flag-local", CONTEXT, sub(
+    _PRE_GUARD, "        do_autoflush = not is_pre_event and load_options._autoflush\n        if do_autoflush:\n            session._autoflush()\n\n"
+                "        return statement, execution_options, params\n", count=2), None)
+R.mutant("benign-pre-exec-guard-early-return", CONTEXT, sub(
+    _PRE_GUARD, "        if is_pre_event:\n            return statement, execution_options, params\n        if load_options._autoflush:\n            session._autoflush()\n\n"
+                "        return statement, execution_options, params\n", count=2), None)
+R.mutant("pre-exec-flag-local-inverted", CONTEXT, sub(
+    _PRE_GUARD, "        do_autoflush = is_pre_event and load_options._autoflush\n        if do_autoflush:\n            session._autoflush()\n\n"
+                "        return statement, execution_options, params\n", count=2), "C47-R1")
+_INS_GUARD = "        if not is_pre_event and insert_options._autoflush:\n            session._autoflush()\n"
+_INS_HELPER_AT = "    select_statement: Optional[FromStatement] = None\n\n"
+R.mutant("benign-bulk-insert-autoflush-through-classmethod-helper", BULK, chain(
+    sub(_INS_GUARD, "        cls._autoflush_unless_pre_event(session, insert_options, is_pre_event)\n"),
+    sub(_INS_HELPER_AT, _INS_HELPER_AT + "    @classmethod\n    def _autoflush_unless_pre_event(cls, session, options, is_pre_event):\n"
+                                         "        if is_pre_event:\n            return\n        if options._autoflush:\n            session._autoflush()\n\n"),
+), None)
+R.mutant("bulk-insert-autoflush-helper-ignores-option", BULK, chain(
+    sub(_INS_GUARD, "        cls._autoflush_unless_pre_event(session, insert_options, is_pre_event)\n"),
+    sub(_INS_HELPER_AT, _INS_HELPER_AT + "    @classmethod\n    def _autoflush_unless_pre_event(cls, session, options, is_pre_event):\n"
+                                         "        if is_pre_event:\n            return\n        session._autoflush()\n\n"),
+), "C47-R1")
+_AF_DEF = "    def _autoflush(self) -> None:\n        if self.autoflush and not self._flushing:\n"
+R.mutant("benign-autoflush-guard-through-flag-local", SESSION, sub(
+    _AF_DEF, "    def _autoflush(self) -> None:\n        should_flush = self.autoflush and not self._flushing\n        if should_flush:\n"), None)
+R.mutant("autoflush-guard-flag-local-or", SESSION, sub(
+    _AF_DEF, "    def _autoflush(self) -> None:\n        should_flush = self.autoflush or not self._flushing\n        if should_flush:\n"), "C47-R2")
+_CORE_AF = "            # Issue #9809: unconditionally autoflush for Core statements\n            self._autoflush()\n"
+_EXEC_INTERNAL_DEF = "    def refresh(\n"
+R.mutant("benign-core-autoflush-through-helper", SESSION, chain(
+    sub(_CORE_AF, "            self._autoflush_for_core_statement()\n"),
+    sub(_EXEC_INTERNAL_DEF, "    def _autoflush_for_core_statement(self) -> None:\n        # Issue #9809: unconditionally autoflush for Core statements\n        self._autoflush()\n\n" + _EXEC_INTERNAL_DEF),
+), None)
+R.mutant("core-autoflush-helper-only-with-pending-objects", SESSION, chain(
+    sub(_CORE_AF, "            self._autoflush_for_core_statement()\n"),
+    sub(_EXEC_INTERNAL_DEF, "    def _autoflush_for_core_statement(self) -> None:\n        if self._new:\n            self._autoflush()\n\n" + _EXEC_INTERNAL_DEF),
+), "C47-R1")
+R.mutant("benign-merge-autoflush-inverted-if", SESSION, sub(
+    "            self._flush_warning(\"Session.merge()\")\n\n        if load:\n            # flush current contents if we expect to load data\n            self._autoflush()\n",
+    "            self._flush_warning(\"Session.merge()\")\n\n        if not load:\n            pass\n        else:\n            self._autoflush()\n"), None)
